@@ -5,6 +5,7 @@ import flowpaths.utils as utils
 import networkx as nx
 import time
 import copy
+import math
 from abc import ABC, abstractmethod
 from collections import Counter
 
@@ -127,6 +128,10 @@ class AbstractWalkModelDiGraph(ABC):
         for edge in self.G.edges():
             if not self.G.is_scc_edge(edge[0], edge[1]):
                 self.edge_upper_bounds[edge] = 1
+            else:
+                # the bounds are those of integer variables (number of traversals): a fractional value (e.g. a float flow value)
+                # means its floor; handing the solver an integer column with a fractional upper bound is asking for trouble
+                self.edge_upper_bounds[edge] = math.floor(self.edge_upper_bounds[edge])
 
         self.subset_constraints = copy.deepcopy(subset_constraints)
         if self.subset_constraints is not None:
